@@ -92,7 +92,7 @@ def py_c07_check(adj, tasks, t, draw, r):
         if any(st[d] != 8 for d in py_branch(adj, tasks, u)):
             return False
     for j in st:
-        if tasks[j][5] and j not in untaken and tasks[j][0] != 8 and any(st[p] != 8 for p in par[j]) and st[j] == 8:
+        if tasks[j][5] and tasks[j][0] != 8 and any(p != t and st[p] != 8 for p in par[j]) and st[j] == 8:
             return False
     for n in st:
         if n in canc:
@@ -215,16 +215,15 @@ def run(ctx):
                      "graphs, then the real notify_task_completion with the real random.choices; S-choices: random.choices on weight "
                      "vectors with zeros, 20 samples each")
 
-    # ---- known finding: direct edge from the conditional to its join
+    # ---- regression of the repaired finding FTG1 (direct edge from the conditional to its join): the join must
+    # survive when another branch is drawn
     wpath = os.path.join(CORPUS, "join_direct_edge.json")
     if os.path.exists(wpath):
         w = json.load(open(wpath))
         tasks = {int(k): v for k, v in w["tasks"].items()}
         r = core.run_impl("taskgraph.py", {"cases": [{"graphs": [tg.spec_of(w["adj"], tasks)], "op": w["op"]}]})["results"][0]
         st = {v[0]: v[1] for v in r[1]}
-        if r[0][0] == 0 and st[w["join"]] == 8 and r[0][1][0] == [w["taken"]]:
-            ctx.known("FTG1", "notify_task_completion cancels the join (and everything behind it) when the conditional has a direct "
-                             "edge to it and another branch is drawn: C->[A,T], A->T, T->Z, draw A => T, Z CANCELLED "
-                             "(workload/tasks.py:918-922; lemma C07_join_direct_edge_refuted)")
-        else:
-            ctx.cov["input_distribution"]["FTG1_witness_no_longer_fails"] = True
+        if r[0][0] == 0 and st[w["join"]] == 8:
+            ctx.violation("FTG1_regression", {"stream": "regression FTG1", "witness": w, "implementation": r,
+                                              "what": "the conditional has a direct edge to its join, another branch was drawn, and "
+                                                      "notify_task_completion cancelled the join although the taken branch leads to it"})
